@@ -8,6 +8,7 @@ from ..core import Check, Violation
 from ..engine import EngineDied, engine
 from ..gen import values as V
 from ..ref import jsonstrict
+from .. import util
 
 PROPERTY = "C05"
 RULE = ("values from a recursive generator (boundary/random doubles, strings over a mixed alphabet with every C0/C1 "
@@ -175,6 +176,62 @@ def check_layered(case):
     hidden = sum(1 for l in layers for f in l if f[1] == "::")
     nt = len(layers) >= 2 and hidden >= 1
     return {"nontrivial": nt, "labels": [f"layers{len(layers)}"], "sample": src}
+
+
+# 2b. every manifester sees only the value: an object built by inheritance, with hidden fields, as the top value / an array
+# element / a field, manifests exactly like the plain object with the same visible fields; and several manifestations inside one
+# program (any order) give what each gives in a program of its own
+MANIFESTERS = [
+    "std.manifestJsonEx(@, '  ')", "std.manifestJsonMinified(@)", "std.manifestJson(@)", "std.toString(@)", "std.manifestPython(@)",
+    "std.manifestYamlDoc(@, indent_array_in_object=false, quote_keys=false)", "std.manifestYamlDoc(@, indent_array_in_object=true, quote_keys=true)",
+    "std.manifestYamlStream([@, @], quote_keys=false)", "std.manifestTomlEx({t: @}, ' ')", "std.manifestToml({t: @})", "'' + @", "'%s' % [@]",
+]
+CONTEXTS = ["@", "[@]", "[1, @, @]", "{k: @}", "{k: [@, {j: @}]}", "[[@]]"]
+
+
+@st.composite
+def everywhere_case(draw):
+    c = draw(layered_case())
+    # TOML has no null: scalars are replaced by non-null ones
+    for layer in c["layers"]:
+        for f in layer:
+            if f[2] is None:
+                f[2] = True
+    c["context"] = draw(st.integers(0, len(CONTEXTS) - 1))
+    c["order"] = draw(st.permutations(list(range(len(MANIFESTERS)))))
+    c["names"] = draw(st.lists(st.sampled_from(V.YAML_HOSTILE + ["a.b", "x/y", "v1.2.3", "key", "a b", "\u00e9"]), min_size=0, max_size=3, unique=True))
+    return c
+
+
+def check_everywhere(case):
+    layers = case["layers"]
+    # some field names are replaced by names that YAML and TOML quote differently
+    ren = dict(zip(["a", "b", "c"], [n for n in case["names"] if n not in ("a", "b", "c", "\u00e9", "z z", "A")]))
+    layers = [[[ren.get(n, n), vis, val] for n, vis, val in layer] for layer in layers]
+    src = "(" + " + ".join("{" + ", ".join(f"{V.jsonnet_string(n)}{vis} {V.to_jsonnet(val)}" for n, vis, val in layer) + "}" for layer in layers) + ")"
+    plain = V.to_jsonnet(expected_layered(layers))
+    ctx = CONTEXTS[case["context"]]
+    whole_l, whole_p = ctx.replace("@", src), ctx.replace("@", plain)
+    together = "local v = " + whole_l + "; [" + ", ".join(MANIFESTERS[i].replace("@", "v") for i in case["order"]) + "]"
+    alone = [m.replace("@", whole_p) for m in MANIFESTERS]
+    res = util.eval_exprs([together] + alone, want=["typed"], fuel=3_000_000)
+    if not util.is_ok(res[0]):
+        if all(not util.is_ok(r) for r in res[1:]):
+            return {"labels": ["all-fail"]}
+        bad = [alone[k] for k, r in enumerate(res[1:]) if not util.is_ok(r)]
+        if bad:
+            return {"labels": ["some-manifester-rejects-the-value"]}
+        raise Violation("manifest-error:together", f"{together[:400]} failed ({res[0]['err'].get('variant')} {res[0]['err'].get('detail')}) although every manifester accepts the plain value")
+    got = util.typed(res[0])["a"]
+    for pos, i in enumerate(case["order"]):
+        r = res[1 + i]
+        if not util.is_ok(r):
+            raise Violation("manifest-error:alone", f"{alone[i][:300]} failed but the same manifester succeeded on the inherited object")
+        if got[pos] != util.typed(r):
+            raise Violation("manifester-sees-more-than-the-value", f"{MANIFESTERS[i]} of {whole_l[:300]} (manifestation {pos + 1} of {len(MANIFESTERS)} in one program) = {got[pos][:300]!a}, "
+                                                                     f"of the plain value {whole_p[:200]} in a program of its own = {util.typed(r)[:300]!a}")
+    hidden = sum(1 for l in layers for f in l if f[1] == "::")
+    return {"nontrivial": hidden >= 1 or len(layers) >= 2, "labels": [f"ctx{case['context']}"], "sample": together[:300]}
 
 
 # ---------------------------------------------------------------------------------------------
@@ -394,6 +451,7 @@ def check_yaml(case):
 CHECKS = [
     Check("json_family", check_json, json_case, quick=200, thorough=12000),
     Check("layered_objects", check_layered, layered_case, quick=200, thorough=4000),
+    Check("manifesters_see_only_the_value", check_everywhere, everywhere_case, quick=150, thorough=4000),
     Check("python", check_python, python_case, quick=200, thorough=5000),
     Check("toml", check_toml, toml_case, quick=200, thorough=5000),
     Check("yaml_parseback", check_yaml, yaml_case, quick=200, thorough=8000),
